@@ -5,6 +5,9 @@ Deciding obligations:
     syntactically identical — `prog_eqb A B = true`, hence equal for ALL states (C08_identical_programs_agree);
   * closed-form association vs iterative solver: AssocC08.v proves the closed forms solve the site-balance equations (all
     strengths and densities), in (0,1], unique for the self-associating case;
+  * Peng-Robinson vs the textbook closed form: PRTextbookC08.v proves (all states) that the coded Helmholtz energy differentiates to the
+    textbook pressure; per sampled state an `interval` goal ties the pressure the State layer reports in Pa to the textbook formula
+    in SI molar quantities (R = k_B N_A, a_i, b_i, kappa_i, alpha_i(T), mixing rules with k_ij), 1e-9 relative;
   * every other pair is first given to the verified AC-canonicaliser (coq/theories/Canon.v, C08_canonical_programs_agree): the
     outputs (contributions) it identifies are equal for ALL states by theorem — on this tree the hard-sphere and hard-chain
     contributions of ePC-SAFT without ions vs PC-SAFT (EXPECT_CANON; losing one is a violation); the remaining code paths differ by
@@ -167,8 +170,21 @@ def run(ctx):
             samples.append({"pair": name, "instructions": [p["ninstr_a"], p["ninstr_b"]], "syntactically_identical": same,
                             "state_TVN": p["states"][0] if p["states"] else None,
                             "A_enclosures": [encl(ea0[0]), encl(eb0[0])] if ea0 and eb0 else None})
+    # --- Peng-Robinson: reported SI pressure vs the textbook closed form in SI (one `interval` goal per state)
+    prtb = impl.get("pr_textbook", [])
+    for g in prtb:
+        obligations += 1
+        r = res.get(os.path.join(ctx.gen, g["file"] + ".v"))
+        if r is not None and r["rc"] == 0:
+            discharged += 1
+        else:
+            V.violation(ctx, "Peng-Robinson: the pressure reported in SI units (%r Pa) is not the textbook closed form at T=%r K, "
+                        "molar volume %r m^3/mol (%d components)" % (g["pressure_api_Pa"], g["state_TVN"][0], g["molar_volume_m3"], g["ncomp"]),
+                        {"broken": "gen/C08/%s.v (interval goal: textbook Peng-Robinson pressure in SI)" % g["file"], "state": g,
+                         "coq_error": V.coq_error(r["out"]) if r else None}, found_input=True)
     cov = {
         "obligations": obligations, "discharged": discharged,
+        "peng_robinson_textbook_SI_goals": len(prtb),
         "checker_cmd": "make -C coq (coqc 8.16.1) ; coqc coq/gen/C08/<pair>.v",
         "trusted_base": V.COMMON_TRUSTED + ["Interval bigint backend at precision %d" % impl["prec"],
                                              "the list of pairs and how each member is constructed (harness/src/bin/c08.rs)"],
@@ -186,5 +202,5 @@ def run(ctx):
     V.write_evidence(ctx, "proof", cov, [
         "only the container pairs and the association closed form are decided by theorems for all states; the other pairs are "
         "compared at sampled states (verified enclosures: a machine-checked comparison, not a proof of equality everywhere)",
-        "Peng-Robinson vs the textbook closed form in SI units is covered by C02/C10-style unit checks, not here",
+        "Peng-Robinson: the derivative identity is proved for all states; the SI tie (units, constants, mixing rules) is an interval goal at sampled states",
     ])
